@@ -12,7 +12,7 @@ class set_type(DataStreamProcessor):
         super(set_type, self).__init__()
         if not regex:
             name = re.escape(name)
-        self.name = re.compile(f'^(?:{name})$')
+        self.name = re.compile(f'^(?:{name})\\Z')
         self.options = options
         self.resources = resources
         self.field_names = dict()
